@@ -124,6 +124,8 @@ structure Acc where
   trace : List Obs := []            -- implementation observations (reverse order)
   inWindow : List Bool := []        -- per observation: peer inside a snapshot replay window (reverse order)
   firstDiff : Option String := none
+  firstDiffAt : Nat := 0
+  undecAt : List Bool := []         -- per observation: the model says the entry could not be decoded / the FSM crashed (reverse order)
   beyond : Bool := false            -- the script entered a branch the correspondence does not cover
   nApply : Nat := 0
   feats : List String := []
@@ -197,6 +199,8 @@ def oneEvent (ops : List Op) (a : Acc) (i : Nat) (tok : Tok) (o : RawObs) (k : N
           some ("ev" ++ toString k ++ ":model=" ++ showRes out.res ++ "~" ++ toString ea ++
                 (match ev with | .down => "~D" | .error => "~E" | .pins m => "~size" ++ toString m.length) ++
                 "~calls" ++ toString out.calls.length),
+    firstDiffAt := (match a.firstDiff with | some _ => a.firstDiffAt | none => k),
+    undecAt := (out.res == .err && lastEv == .apply || out.res == .crash) :: a.undecAt,
     beyond := beyond, nApply := a.nApply + (if lastEv == .apply && out.res == .ok then 1 else 0), feats := feats }
 
 def runCase (ops : List Op) (n : Nat) (evs : List (Nat × Tok)) (obs : List RawObs) : Acc :=
@@ -216,19 +220,28 @@ def answer (ws : List String) : String :=
         let a := runCase ops n evs obs
         let trace := a.trace.reverse
         let wins := a.inWindow.reverse
+        let undec := a.undecAt.reverse
         let origins := ops.any (fun o => !o.decodable)
-        let failed := (clauses ops trace).filter (fun c => !c.2)
         let arm := "arm=" ++ kind ++ " " ++ " ".intercalate (a.feats.map (fun f => "arm=" ++ kind ++ "+" ++ f))
         if a.beyond then "bad-case beyond-model (op applied on a poisoned FSM)" else
-        if !failed.isEmpty then
-          -- are all observations failing a prefix-type clause inside a snapshot replay window?
-          let bad := (trace.zip wins).filter (fun ow =>
+        -- The part of the history before the first observation touched by a recorded defect (an
+        -- undecodable entry applied, a peer inside a snapshot replay window) is an ordinary history:
+        -- it is judged first, on its own.
+        let touched := (undec.zip wins).map (fun uw => uw.1 || uw.2)
+        let cut := (touched.takeWhile (fun b => !b)).length
+        let report := fun (tr : List Obs) (ws : List Bool) (orig : Bool) (failed : List (String × Bool)) =>
+          let bad := (tr.zip ws).filter (fun ow =>
             !(prefixOk ops ow.1 && ackVisibleOk ops ow.1 && ackDurableOk ops ow.1))
           let window := !bad.isEmpty && bad.all (·.2)
           "propfail " ++ ",".intercalate (failed.map (·.1)) ++ " " ++ arm ++
-            " window=" ++ (if window then "1" else "0") ++ " origins=" ++ (if origins then "1" else "0") ++
+            " window=" ++ (if window then "1" else "0") ++ " origins=" ++ (if orig then "1" else "0") ++
             -- does the implementation behave exactly as the model (which includes the recorded defects) predicts?
             " agree=" ++ (if a.firstDiff.isNone then "1" else "0")
+        let failedPre := (clauses ops (trace.take cut)).filter (fun c => !c.2)
+        let failed := (clauses ops trace).filter (fun c => !c.2)
+        if !failedPre.isEmpty then report (trace.take cut) (wins.take cut) false failedPre
+        else if a.firstDiff.isSome && a.firstDiffAt < cut then "diff " ++ arm ++ " " ++ a.firstDiff.getD ""
+        else if !failed.isEmpty then report trace wins origins failed
         else match a.firstDiff with
           | some d => "diff " ++ arm ++ " " ++ d
           | none => "ok " ++ arm ++ (if a.nApply == 0 then " trivial" else "")
